@@ -74,6 +74,8 @@ def lean_ty(t):
         return "(Option Rat)"
     if t == SQRT:
         return "(Rat → Option Rat)"
+    if isinstance(t, tuple) and t[0] == "list":
+        return f"(List {lean_ty(t[1])})"
     if isinstance(t, tuple) and t[0] == "opt":
         return f"(Option {lean_ty(t[1])})"
     if isinstance(t, tuple) and t[0] == "slice":
@@ -275,6 +277,15 @@ class Tr:
                 n = len(tb[1])
                 i = idx.elts[1].value
                 return proj(base, i, n), tb[1][i]
+            if isinstance(tb, tuple) and tb[0] == "list" and tb[1] == INT:
+                if isinstance(idx, ast.Slice) and idx.lower is None and idx.step is None and idx.upper is not None:
+                    hi, th = self.expr(idx.upper, env)
+                    if th == INT:
+                        return f"(pyListTake {base} {hi})", tb                     # chunk[:pos]
+                if not isinstance(idx, ast.Slice):
+                    i, ti = self.expr(idx, env)
+                    if ti == INT:
+                        return f"(pyListGet {base} {i})", INT                      # chunk[pos]
             raise TranslationError(f"subscript {src}")
         if isinstance(node, ast.Tuple):
             parts = [self.expr(e, env) for e in node.elts]
@@ -628,6 +639,10 @@ class Tr:
         if fname in ("math.ceil", "np.ceil") and len(args) == 1:
             e, t = args[0]
             return (e, INT) if t == INT else (f"(pyCeil {e})", INT)
+        if fname == "sum" and len(args) == 1 and args[0][1] == ("list", INT):
+            return f"(({args[0][0]}).sum)", INT
+        if fname == "len" and len(args) == 1 and args[0][1] == ("list", INT):
+            return f"((({args[0][0]}).length : Nat) : Int)", INT
         if fname == "len" and len(args) == 1 and isinstance(args[0][1], tuple) and args[0][1][0] == "tuple":
             return f"({len(args[0][1][1])} : Int)", INT
         if fname == "slice" and 1 <= len(args) <= 3:
@@ -1135,6 +1150,18 @@ SPECS = [
          guard=lambda fn: isinstance(fn.body[1], ast.If) and not fn.body[1].orelse and len(fn.body[1].body) == 1
          and _same(fn.body[1].body[0], "return np.full((2,) + tuple(target_area.shape), np.nan)"),
          owners=["C09"]),
+    dict(name="chunk_slice", file="pyresample/slicer.py", func="_enumerate_chunk_slices",
+         params=[("chunk", ("list", INT)), ("pos", INT)], returns=sl(INT),
+         select=lambda fn: list(fn.body[1].body[1].body[:2]) + [ast.Return(value=fn.body[1].body[1].body[2].value.args[0])],
+         guard=lambda fn: (isinstance(fn.body[1], ast.For) and ast.unparse(fn.body[1].target) == "position"
+                           and ast.unparse(fn.body[1].iter) == "np.ndindex(tuple(map(len, chunks)))"
+                           and _same(fn.body[1].body[0], "slices = []")
+                           and isinstance(fn.body[1].body[1], ast.For) and ast.unparse(fn.body[1].body[1].target) == "(pos, chunk)"
+                           and ast.unparse(fn.body[1].body[1].iter) == "zip(position, chunks)"
+                           and len(fn.body[1].body[1].body) == 3
+                           and ast.unparse(fn.body[1].body[1].body[2]).startswith("slices.append(")
+                           and _same(fn.body[1].body[2], "yield (position, slices)") and len(fn.body[1].body) == 3),
+         owners=["C19", "C11"]),
     # ---- C11 -----------------------------------------------------------------------------------
     dict(name="expand_slice", file="pyresample/slicer.py", func="expand_slice",
          params=[("small_slice", sl(INT))], returns=sl(INT), select=_whole, owners=["C11"]),
